@@ -3,6 +3,7 @@ package main
 import (
 	"bytes"
 	"context"
+	"fmt"
 	"os/exec"
 	"strings"
 	"time"
@@ -10,10 +11,14 @@ import (
 
 // runSolverCtx is runSolver with external cancellation.
 func runSolverCtx(ctx context.Context, s solverSpec, input string, timeoutS int) (verdict, output string, secs float64) {
-	cctx, cancel := context.WithTimeout(ctx, time.Duration(timeoutS+2)*time.Second)
+	// The budget is CPU time (ulimit -t), so that the verdict does not depend on how busy
+	// the machine is; wall-clock time is capped at four times the budget.
+	wall := 4 * timeoutS
+	cctx, cancel := context.WithTimeout(ctx, time.Duration(wall+2)*time.Second)
 	defer cancel()
-	argv := s.argv(timeoutS)
-	cmd := exec.CommandContext(cctx, argv[0], argv[1:]...)
+	argv := s.argv(wall)
+	sh := fmt.Sprintf("ulimit -t %d; exec \"$0\" \"$@\"", timeoutS)
+	cmd := exec.CommandContext(cctx, "sh", append([]string{"-c", sh}, argv...)...)
 	cmd.Stdin = strings.NewReader(input)
 	var out bytes.Buffer
 	cmd.Stdout = &out
